@@ -5,7 +5,7 @@ from mir2smt import terms as T
 from mir2smt.exec import (Executor, State, Frame, IV, Agg, EnumV, RefV, Outcome, Unsupported, UNIT,
                           Program, _Holder, FV, StrV, OvfT)
 from mir2smt.vc import (sym_int, decimal, sym_decimal, ref_to, start_state, check_vc, model_int,
-                        rnd_rel, rnd_conc, MODES, MAXC, smtlib)
+                        rnd_rel, rnd_conc, MODES, MAXC, smtlib, check_vc_portfolio)
 from mir2smt import builtins as BI
 from mir2smt.terms import ty_range, INT_TYPES, is_conc
 
@@ -46,11 +46,19 @@ class Res:
         self.d = {"case": case_id, "vcs": 0, "discharged": 0, "paths": 0, "violations": [], "inconclusive": [],
                   "samples": [], "distinct": [], "fns": set(), "models": set(), "solver_time": 0.0, "stats": {}}
 
-    def vc(self, ctx, name, constraints, goal, inputs, info=None, timeout_ms=None):
+    def vc(self, ctx, name, constraints, goal, inputs, info=None, timeout_ms=None, portfolio=None):
         """discharge one VC; on sat record a violation with concrete inputs"""
         d = self.d
         d["vcs"] += 1
-        r = check_vc(constraints, goal, timeout_ms or ctx.timeout_ms, name)
+        if portfolio and not isinstance(goal, bool):
+            r = check_vc_portfolio(constraints, goal, timeout_ms or ctx.timeout_ms, name, seeds=portfolio)
+            if r.status == "sat":
+                t_sat = r.time
+                r = check_vc(constraints, goal, timeout_ms or ctx.timeout_ms, name)   # for the model
+                r.time += t_sat
+            d.setdefault("portfolio", []).append({"vc": name, "status": r.status, "time_s": round(r.time, 1), "seeds": list(portfolio)})
+        else:
+            r = check_vc(constraints, goal, timeout_ms or ctx.timeout_ms, name)
         d["solver_time"] += r.time
         if not isinstance(goal, bool):
             d["distinct"].append(name)
@@ -67,6 +75,22 @@ class Res:
         else:
             d["inconclusive"].append("solver unknown/timeout on VC %s (%.1fs)" % (name, r.time))
         return r
+
+    def witness(self, ctx, name, constraints, assignment):
+        """reachability witness: the constraints must be satisfiable for the given concrete inputs"""
+        s = z3.Solver()
+        s.set("timeout", 20000)
+        for c in constraints:
+            s.add(c)
+        for t, v in assignment:
+            s.add(t == v)
+        r = s.check()
+        self.d.setdefault("witnesses", 0)
+        if r == z3.sat:
+            self.d["witnesses"] += 1
+            return True
+        self.d["inconclusive"].append("reachability witness for %s is %s (vacuous or over-constrained encoding?)" % (name, r))
+        return False
 
     def sample(self, s):
         if len(self.d["samples"]) < 3:
